@@ -1260,6 +1260,12 @@ def oracle(case, ans):
             return None
         if ans == "dependent" and min_dist2(M) < Fraction(1, 90):
             return None
+        if ans == "panic":
+            # the caller-side estimate (f64 Gram-Schmidt) is not part of det_matz: when it is off by more than the
+            # 1e-6 the closing cross-check tolerates, the refusal is the documented behaviour
+            ok, est = gram_estimate(M)
+            if ok and abs(est - e) > 0.5e-6:
+                return None
         return f"det {ans[:60]} != {d}"
     if op == "im_crtdet":
         want = case.tag if case.tag else lst([bareiss(dec(a[0]) + [c]) for c in dec(a[1])])
@@ -1427,6 +1433,30 @@ def oracle(case, ans):
                 return f"u * seq has a non-zero coefficient at x^{k}"
         return None
     return "unknown op"
+
+
+def gram_estimate(M):
+    """GramBuilder (threshold 0.01) in IEEE doubles, same operation order as the Rust code: returns
+    (accepted?, log2 estimate of |det|)"""
+    gram, norms = [], []
+    for row in M:
+        v = [float(x) for x in row]
+        for g, ng in zip(gram, norms):
+            if ng < 1e-9:
+                continue
+            dot = 0.0
+            for a, b in zip(g, v):
+                dot += a * b
+            mu = dot / ng
+            v = [x - mu * y for x, y in zip(v, g)]
+        n = 0.0
+        for x in v:
+            n += x * x
+        if n < 0.01:
+            return False, None
+        norms.append(n)
+        gram.append(v)
+    return True, sum(math.log2(x) for x in norms) / 2.0
 
 
 def min_dist2(M):
